@@ -35,6 +35,56 @@ def slot_local(ex):
     return ls[0]
 
 
+def slot_limit_cases(F, ex, op, S, depth=0):
+    """What GET's limit argument is, per state of the slot counter S (ControlFlow<(), Option<usize>>):
+    {'Continue': 'payload' | ('ub', n) | '?', 'Break': ...}.  Understands `S.continue_value().unwrap_or(d)`,
+    `match S { Continue(x) => x, Break(()) => d }` (a local assigned once per arm) and moves of those."""
+    unknown = {"Continue": "?", "Break": "?"}
+    l = op_local(op)
+    if l is None or depth > 6:
+        return unknown
+    defs = ex.defs.get(l, [])
+    if len(defs) == 1:
+        site, kind, payload = defs[0]
+        if kind == "assign" and payload["rv"]["k"] == "use":
+            return slot_limit_cases(F, ex, payload["rv"]["op"], S, depth + 1)
+        if kind == "call" and callee_is(payload, r"Option::<.*>::unwrap_or$"):
+            rsl = A.slice_back(ex, [payload["args"][0]])
+            if rsl.has_call(r"ControlFlow::<.*>::continue_value$") and S in rsl.locals:
+                ub = A.upper_bound(F, ex, payload["args"][1])
+                return {"Continue": "payload", "Break": ("ub", ub)}
+        return unknown
+    out = dict(unknown)
+    for site, kind, payload in defs:
+        if kind != "assign":
+            return unknown
+        var = None
+        for g in A.guards_of(ex, site):
+            d = g.cond_def()
+            if d and d[0] == "discr" and A.canon_place(ex, d[1])["l"] == S and not A.canon_place(ex, d[1])["p"]:
+                vs = g.variants()
+                if vs and len(vs) == 1:
+                    var = next(iter(vs))
+        if var is None:
+            return unknown
+        rv = payload["rv"]
+        val = "?"
+        if rv["k"] == "use":
+            src = op_place(rv["op"])
+            if src is not None:
+                cp = A.canon_place(ex, src)
+                if cp["l"] == S and [e.get("v") if isinstance(e, dict) else e for e in cp["p"]][:1] == ["Continue"]:
+                    val = "payload"
+            if val == "?":
+                val = ("ub", A.upper_bound(F, ex, rv["op"]))
+        elif rv["k"] == "agg":
+            tmp = {"k": "copy", "pl": payload["pl"]}
+            if rv.get("adt") == "std::option::Option" and str(rv["variant"]) == "Some" and const_int(rv["ops"][0]) is not None:
+                val = ("ub", const_int(rv["ops"][0]))
+        out[var] = val
+    return out
+
+
 def slot_writes(ex, S):
     """(site, kind, stmt): kind in init/break/dec/inc/other"""
     out = []
@@ -176,8 +226,8 @@ def r2(F, R):
                     "the slot is released without a completion having been received (or on the wrong edge)")
             R.check(not ex.site_reaches(site, site, stop=[s_get]), "release-once-per-turn", site, "", "slots can be released more than once per loop turn")
     # GET receives the current value of S
-    sl = A.slice_back(ex, [t_get["args"][1]])
-    R.check(S in sl.locals and sl.has_call(r"ControlFlow::<.*>::continue_value$"), "get-receives-slots", s_get, "GET(slots.continue_value()…)",
+    cases = slot_limit_cases(F, ex, t_get["args"][1], S)
+    R.check(cases.get("Continue") == "payload", "get-receives-slots", s_get, "GET(slots.continue_value()…)",
             "GET is not called with the current slot value")
     R.floor(8)
 
